@@ -37,6 +37,10 @@ def gen_report(rng):
         comps = [gen_str(rng, c).replace("/", "_") or "x" for c in comps]
         if any(c in (".", "") for c in comps):
             continue
+        if len(comps) >= 2 and rng.random() < 0.1:
+            # a path that is not in os.path.normpath form: stored paths are data, a reader must hand them back verbatim
+            # (seeded change C08-15)
+            comps.insert(rng.randrange(1, len(comps)), "..")
         q = "/".join(comps)
         if q not in paths:
             paths.append(q)
@@ -220,7 +224,10 @@ def run(tier, seed, replay=None):
             chk.broken.append("correspondence evaluation failed: " + err[-400:])
         for i in mism[:3]:
             got = eval_one("C08", IMPORTS, mcases[i][0])
-            mp = render_tokens(got[0]) if got else None
+            try:
+                mp = render_tokens(got[0]) if got else None
+            except TypeError:
+                mp = got          # the model returned an error value, not a document
             chk.broken.append(f"correspondence: writer model and implementation differ on {mcases[i][2]}: model document "
                               f"{str(mp)[:200]!r}")
     else:
